@@ -193,6 +193,8 @@ pub enum Op {
     Expand { p: String },
     UserDir { which: String },
     Getrids { uid: u32, gid: u32 },
+    /// a public path / string helper called directly with hostile text (C12 auxiliary: no panic)
+    PathFn { f: String, a: String, b: String },
 }
 
 impl Op {
@@ -261,6 +263,7 @@ impl Op {
             Op::Expand { .. } => "expand",
             Op::UserDir { .. } => "user_dir",
             Op::Getrids { .. } => "getrids",
+            Op::PathFn { .. } => "path_fn",
         }
     }
 
@@ -383,6 +386,7 @@ impl Op {
             },
             Op::Macro { name, .. } => format!("macro:{}", name),
             Op::UserDir { which } => format!("user:{}", which),
+            Op::PathFn { f, .. } => format!("path_fn:{}", f),
             Op::Entries { o, .. } => {
                 let mut s = String::from("entries");
                 if o.min.is_some() {
